@@ -21,6 +21,10 @@ rule("C03.b", "per row letter the constraint uses the documented relation (U <=,
               "right-hand side are subset by the same row mask", floor=8)
 rule("C01.c", "nodal rows (letter N) are translated as equalities by every interface", floor=2)
 rule("C03.c", "variable bounds reach the solver in the right direction; objective sign and optimisation direction agree", floor=4)
+rule("C03.j", "inside optimize() the boolean flags have one source: the working copy of the mapping in which make_soft_problem clears them - "
+              "nothing selects 'the boolean variables' from the problem's own mapping (a relaxed solve would be post-processed like a MIP: the "
+              "returned vector is no longer the solver's, value, bounds, rows and the reported nodal balance no longer fit)", floor=1,
+     props=["C03", "C01", "C04"])
 rule("C03.d", "boolean variables are selected from mapping['bool'] by variable label (de-duplicated by index) and cleared only "
               "by make_soft_problem", floor=2, props=["C03", "C08", "C20"])
 rule("C03.i", "optimize() does not turn a solver *error* into the report 'not successful': no try / except around the solve call lets "
@@ -241,7 +245,7 @@ def _stmts_in(body):
     return list(au.walk_stmts(body))
 
 
-@analysis("translation", ["C03.a", "C03.b", "C01.c", "C03.c", "C03.d", "C03.e", "C03.i"])
+@analysis("translation", ["C03.a", "C03.b", "C01.c", "C03.c", "C03.d", "C03.e", "C03.i", "C03.j"])
 def run(ctx):
     p = ctx.p
     opt = p.cls("OptimProblem").methods.get("optimize")
@@ -506,6 +510,35 @@ def run(ctx):
                     ctx.ob("C03.d", opt, "clearing of boolean flags: %s" % au.short(st, 60), guarded,
                            "the boolean flags are cleared on a path that is not guarded by make_soft_problem (or by the column "
                            "being absent): a MIP would silently be solved as an LP", node=st)
+
+    # ---- C03.d (cont.) one source of truth for the flags inside optimize: the working copy that make_soft_problem clears
+    work = set()
+    for st in _stmts_in(opt.body):
+        if isinstance(st, ast.Assign) and isinstance(st.value, ast.Constant) and st.value.value is False:
+            for t in st.targets:
+                if isinstance(t, ast.Subscript) and au.const_str(t.slice) == "bool" and isinstance(t.value, ast.Name):
+                    work.add(t.value.id)
+    if work:
+        n_reads = 0
+        for st in _stmts_in(opt.body):
+            for n in au.walk_own(st):
+                if isinstance(n, ast.Subscript) and au.const_str(n.slice) == "bool" and isinstance(n.ctx, ast.Load):
+                    base = n.value
+                    while isinstance(base, ast.Subscript) or (isinstance(base, ast.Attribute) and base.attr in ("loc", "iloc")):
+                        base = base.value
+                    pth = au.path(base)
+                    if pth is None:
+                        continue
+                    n_reads += 1
+                    own = pth == "self.mapping" or (isinstance(base, ast.Name) and base.id not in work and any(
+                        d.value is not None and au.path(d.value) == "self.mapping" for d in ff.defs(base.id, st) if d.kind == "assign"))
+                    ctx.ob("C03.j", opt, "flags read from %s" % au.short(n, 50), not own,
+                           "optimize() works on a copy of the mapping (%s) in which make_soft_problem clears the flags; here the flags are read from the "
+                           "problem's own mapping, where they are still set: whatever is done with the variables selected this way (rounding the "
+                           "result, declaring integers) also hits a *relaxed* solve - fractional values of a relaxed MIP are rounded after the solve, "
+                           "the returned vector violates bounds and rows, its value is not -c'x and the reported nodal balance is off (fuel for "
+                           "on = 0.15 is delivered, the report says 0)" % ", ".join(sorted(work)), node=n,
+                           key="flags are read from the working copy: %s" % au.short(base, 30))
 
     # ================================================================== C03.e status discipline
     for iname, body in sorted(branches.items()):
